@@ -51,6 +51,7 @@ type c15Ev struct {
 const (
 	c15RemoteMult = 2
 	c15RemoteTxMs = 300
+	c15RemoteRxMs = 150 // Required Min RX announced by every injected packet
 )
 
 func (e c15Ev) String() string {
@@ -442,8 +443,10 @@ func (cr *c15Replay) replayWith(t *testing.T, hist []c15Ev, reuse bool, lbfd con
 						your = 0x01020304 // no session reachable through the link
 					}
 				}
+				// Desired Min TX as in the event; Required Min RX (which only paces the router's own transmissions) is a
+				// value that differs from every Desired Min TX used, so that the two fields cannot be confused unnoticed
 				us := uint32(e.txMs()) * 1000
-				bfd := rtr.BFDControl(e.State, e.mult(), 0x5eed0000+uint32(e.State), your, us, us)
+				bfd := rtr.BFDControl(e.State, e.mult(), 0x5eed0000+uint32(e.State), your, us, c15RemoteRxMs*1000)
 				raw, in := c15BFDPacket(e.Link, ifOf[e.Link], bfd, uint32(time.Now().Unix()))
 				lastInject[e.Link] = time.Now()
 				res := rt.Process(raw, in)
@@ -487,10 +490,15 @@ func TestC15(t *testing.T) {
 	depth := mc.Pick(4, 6)
 	r.Rule = fmt.Sprintf("explicit-state BFS (depth %d) over histories of events on one router (sibling links as detached and as connected links) with four link kinds (external+BFD, sibling+BFD, "+
 		"external without BFD, sibling without BFD): a BFD control packet {AdminDown, Down, Init, Up} x YourDiscriminator {0, session's} "+
-		"pushed through the router's own BFD path on the external or the sibling link, a BFD packet on a link without session, or a detection "+
-		"time-out (700 ms of virtual time without packets); state = (local state, up, remote discriminator learned) of both real sessions; after "+
+		"pushed through the router's own BFD path on the external or the sibling link (announcing detect mult 2 / 300 ms, the router has 3 / 200 ms), a BFD "+
+		"packet on a link without session, or a detection time-out (700 ms of virtual time without packets; detection time 2 x max(200,300) = 600 ms); "+
+		"state = (local state, up, remote discriminator learned) of both real sessions; after "+
 		"the start and after every history EVERY valid packet of rtr.Cases (multi-router AS) is processed and judged; one evaluation = one packet "+
-		"judged in one reached state", depth)
+		"judged in one reached state. Timed scenarios (scripted, all enumerated): link {ext, sib} x router's own (mult, RequiredMinRx, DesiredMinTx) "+
+		"{(3,200,200), (5,50,50), (1,300,100) ms} x announced detect mult {1,2,3,5} x announced interval {50,200,400 ms} x 3 ways of getting Up "+
+		"(the packet under test is the last of Down+Up / a single Init / a refresh after packets announcing 4 x 1 s) x sibling-link flavour; then silence, "+
+		"probed at every instant midway between two consecutive candidate detection times {either multiplier} x {either side's intervals (announced Required Min RX 150 ms differs from Desired Min TX), max, min} "+
+		"and the stale 4 s, then re-establishment", depth)
 	cfg := c15Cfg()
 	now := uint32(bubbleStart.Unix())
 	cr := &c15Replay{r: r, stat: map[string]int64{}}
@@ -629,7 +637,7 @@ func TestC15(t *testing.T) {
 				{Kind: "wait", Link: sc.link, Wait: 130 * time.Millisecond}, ev(3, true, sc.mult, sc.txMs)}
 		}
 		ms := func(d time.Duration) int { return int(d / time.Millisecond) }
-		ivs := []int{ms(sc.local.RequiredMinRxInterval), ms(sc.local.DesiredMinTxInterval), sc.txMs,
+		ivs := []int{ms(sc.local.RequiredMinRxInterval), ms(sc.local.DesiredMinTxInterval), sc.txMs, c15RemoteRxMs, max(ms(sc.local.RequiredMinRxInterval), c15RemoteRxMs),
 			max(ms(sc.local.RequiredMinRxInterval), sc.txMs), min(ms(sc.local.RequiredMinRxInterval), sc.txMs)}
 		cand := map[int]bool{staleMult * staleTxMs: true}
 		for _, m := range []int{int(sc.mult), int(sc.local.DetectMult)} {
@@ -690,13 +698,14 @@ func TestC15(t *testing.T) {
 	r.Extra["merge_checks"] = st.MergeChecks
 	r.Extra["merge_check_enabled"] = mc.Thorough()
 	r.Sample(map[string]any{"bfd_event_packet_ext_up": fmt.Sprintf("%x", func() []byte {
-		b, _ := c15BFDPacket("ext", c15ExtBFD, rtr.BFDControl(3, 3, 0x5eed0003, 1, 200000, 200000), now)
+		b, _ := c15BFDPacket("ext", c15ExtBFD, rtr.BFDControl(3, c15RemoteMult, 0x5eed0003, 1, c15RemoteTxMs*1000, c15RemoteRxMs*1000), now)
 		return b
 	}())})
 	r.Assumptions = []string{
 		"'session not up' is decided by a reference RFC 5880 (6.8.6) machine fed with the BFD packets and time-outs the harness injects on the link configured with BFD; forwarding must follow it in both directions whatever session object the link holds (none, another one, a never started one); the real session reachable through the link must agree with the reference (a disagreement is reported under session-state-differs-from-rfc5880-reference and overlaps C16)",
 		"packets are judged by the fast-path disposition/egress (forwarded over the link = disposition forward with that egress) and by the slow path's SCMP bytes; the socket write itself is not part of the observation",
-		"event waits are 10 ms after a packet and 700 ms for a time-out, so no history leaves a detection timer close to expiry (keeps the state abstraction sound; checked by the merge check)",
+		"event waits are 10 ms after a packet and 700 ms for a time-out, so no BFS history leaves a detection timer close to expiry (keeps the state abstraction sound; checked by the merge check); in the timed scenarios every probe instant is at least 2 ms away from the reference's detection deadline (enforced: harness error otherwise)",
+		"detection time of the reference machine = Detect Mult of the LAST RECEIVED packet x max(router's RequiredMinRxInterval, last received DesiredMinTxInterval), restarted by every packet that is not discarded (RFC 5880 6.8.4); when it runs out in Init or Up the link is down",
 		"InternalConnectivityDown names the ingress interface of the packet (0 for packets from hosts or siblings) and the egress interface",
 	}
 	r.Finish(6)
